@@ -495,10 +495,17 @@ BmGot(more) ==
         THEN /\ g' = G("bmg", "getblk")                       \* filter matched: fetch the block
              /\ bat' = [bat EXCEPT !["ux"] = "sub"]
              /\ UNCHANGED ux
+        ELSE IF e = "ok" /\ ~Closed("U") /\ g.bmg = "getblk" /\ more
+        \* the block spends the outpoint: the report is delivered :251, but the scan
+        \* walks on to the tip (with an empty watch list) fetching the next filter
+        THEN /\ g' = G("bmg", "cflock")
+             /\ ux' = [ux EXCEPT !.pq = FALSE, !.res = "ok"]
+             /\ UNCHANGED bat
         ELSE /\ ~more
              /\ g' = G("bmg", "cond")                         \* loop top, queue empty: cv.Wait
              /\ ux' = [ux EXCEPT !.pq = FALSE,
-                                 !.res = IF e = "ok" /\ Closed("U") THEN "shut" ELSE e]
+                                 !.res = IF ux.res # "none" THEN ux.res      \* answered already
+                                         ELSE IF e = "ok" /\ Closed("U") THEN "shut" ELSE e]
              /\ UNCHANGED bat
   /\ UNCHANGED cs /\ UxFrame
   /\ Finish(I("BmGot"))
